@@ -3,6 +3,7 @@ import Driver.C14
 import Driver.C19
 import Driver.C18
 import Driver.Per
+import Driver.Gsess
 /-
   Line-protocol driver: one case per input line (`<op> <args…>`), one output line per
   case: `<model outcome>\t<oracle expectation or ->`.  Built from the very definitions the
@@ -19,6 +20,7 @@ def handle (line : String) : String :=
     else if op == "tpkt_write" || op == "x224_write" then c14 toks
     else if op == "blit" then c19 toks
     else if op.startsWith "per_" then per toks
+    else if op == "gsess" then gsess toks
     else if op == "msg_wr" || op == "msg_rd" || op == "msg_rt" then c18 toks
     else "bad-op"
 
